@@ -89,6 +89,7 @@ package scanner
 //@ site GetSTH#1 as gs
 //@ requires f != nil && f.opts != nil && f.client != nil && ctx != nil
 //@ modifies f.sth, f.opts.EndIndex
+//@ ensures [caller-view] result1 == nil ==> result0 != nil
 //@ ensures [cached-sth-is-returned-unchanged] old(f.sth) != nil ==> result0 == old(f.sth) && result1 == nil && f.opts.EndIndex == old(f.opts.EndIndex) && !gs.called
 //@ ensures [sth-error-passed-on] gs.called && gs.res1 != nil ==> result0 == nil && result1 == gs.res1 && f.opts.EndIndex == old(f.opts.EndIndex) && f.sth == old(f.sth)
 //@ ensures [end-index-clamped-to-the-tree-size] gs.called && gs.res1 == nil ==> result0 == gs.res0 && result1 == nil && f.sth == gs.res0 && f.opts.EndIndex == ((old(f.opts.EndIndex) == 0 || old(f.opts.EndIndex) > int64(gs.res0.TreeSize)) ? int64(gs.res0.TreeSize) : old(f.opts.EndIndex))
@@ -169,3 +170,10 @@ package scanner
 //@ site processEntry#1 as pe
 //@ requires s != nil && foundCert != nil && foundPrecert != nil
 //@ at pe assert [processes-exactly-the-entry-received] pe.info == rcv.res
+
+//@ func NewFetcher
+//@ props C16 C20
+//@ pure
+//@ fresh result
+//@ requires client != nil
+//@ ensures [fetcher-over-that-client-and-those-options] result != nil && result.client == client && result.opts == opts && result.sth == nil
